@@ -11,6 +11,7 @@
 package main
 
 import (
+	"context"
 	"bytes"
 	"crypto/sha256"
 	"encoding/hex"
@@ -46,14 +47,55 @@ type faultErr struct{ code int }
 
 func (e *faultErr) Error() string { return fmt.Sprintf("injected fault %d", e.code) }
 
+// errValues: fault codes 900.. stand for particular error VALUES a failing
+// source may return (the model treats a fault as an opaque event with a code;
+// which value it is, is quantified here by execution).  A source that fails
+// with io.ErrUnexpectedEOF or with a wrapped io.EOF has still failed.
+var errValues = map[int]error{
+	900: io.ErrUnexpectedEOF,
+	901: fmt.Errorf("source broke: %w", io.EOF),
+	902: io.ErrClosedPipe,
+	903: io.ErrNoProgress,
+	904: context.Canceled,
+	905: errors.New("custom source error"),
+	906: fmt.Errorf("short body: %w", io.ErrUnexpectedEOF),
+	907: io.ErrShortBuffer,
+}
+
+var errValueCodes = []int{900, 901, 902, 903, 904, 905, 906, 907}
+
 func (it item) err() error {
 	switch it.flag {
 	case 'e':
 		return io.EOF
 	case 'x':
+		if v, ok := errValues[it.code]; ok {
+			return v
+		}
 		return &faultErr{it.code}
 	}
 	return nil
+}
+
+// codeOfErr maps an error that came back from the code under test to the
+// fault code of the injected error it is (or wraps), by identity.
+func codeOfErr(err error) (int, bool) {
+	var fe *faultErr
+	if errors.As(err, &fe) {
+		return fe.code, true
+	}
+	// wrapped values first: they also satisfy errors.Is for what they wrap
+	for _, c := range []int{901, 906} {
+		if errors.Is(err, errValues[c]) {
+			return c, true
+		}
+	}
+	for _, c := range errValueCodes {
+		if errors.Is(err, errValues[c]) {
+			return c, true
+		}
+	}
+	return 0, false
 }
 
 func showScript(s []item) string {
@@ -272,7 +314,7 @@ func (c *ctx) fail(key, desc string) {
 	if n := len(c.caseOps); n > 0 && !c.shrinking {
 		last := c.caseOps[n-1]
 		switch strings.Fields(last)[0] {
-		case "ck", "cknew":
+		case "ck", "cknew", "hashrd":
 			ops = []string{last}
 		case "create", "conc", "open", "has", "put", "get":
 			if n > 2 && c.reproduces(key, []string{"reset", last}) {
@@ -355,9 +397,8 @@ func (c *ctx) showListing() string {
 }
 
 func canonErr(err error) string {
-	var fe *faultErr
-	if errors.As(err, &fe) {
-		return strconv.Itoa(fe.code)
+	if c, ok := codeOfErr(err); ok {
+		return strconv.Itoa(c)
 	}
 	return "other"
 }
@@ -536,6 +577,29 @@ func (c *ctx) runOp(line string) string {
 			if ending == 'x' && objsOf(after) != objsOf(before) {
 				c.fail("failed-create-leaves-object", "a Create whose input failed changed the object listing: "+clip(before)+" -> "+clip(after))
 			}
+		}
+		return res
+	case "hashrd":
+		if len(ws) != 2 {
+			return "bad-op"
+		}
+		script, ok := parseScript(ws[1])
+		if !ok {
+			return "bad-op"
+		}
+		k, err := hashutil.HashReader(&scriptReader{s: script})
+		content, ending, code := scriptOutcome(script)
+		res := "ok " + k
+		if err != nil {
+			res = "err " + canonErr(err)
+		}
+		switch {
+		case ending == 'x' && err == nil:
+			c.fail("hashreader-ok-on-failed-input", fmt.Sprintf("input failed after %d bytes with fault %d but HashReader returned a digest", len(content), code))
+		case ending == 'x' && res != "err "+strconv.Itoa(code):
+			c.fail("hashreader-error-not-passed", "input failed with fault "+strconv.Itoa(code)+" but HashReader returned "+res)
+		case ending == 'e' && res != "ok "+shaHex(content):
+			c.fail("hashreader-wrong-digest", "HashReader of a complete input returned "+clip(res))
 		}
 		return res
 	case "spawn":
@@ -748,12 +812,12 @@ func (c *ctx) runCheck(want []byte, n int64, bs int, script []item, cls string) 
 		if err == nil {
 			continue
 		}
-		var fe *faultErr
+		fcode, isFault := codeOfErr(err)
 		switch {
 		case err == io.EOF:
 			out = "eof"
-		case errors.As(err, &fe):
-			out = "err:" + strconv.Itoa(fe.code)
+		case isFault:
+			out = "err:" + strconv.Itoa(fcode)
 		case errcode.IsInvalidArg(err):
 			out = "invalid"
 		default:
@@ -1088,6 +1152,63 @@ func (g *gen) faultEnumeration(maxLen int) {
 			if L == 3 {
 				rep.Sample(map[string]string{"op": g.c.ops[len(g.c.ops)-4], "impl": g.c.impl[len(g.c.impl)-4]})
 			}
+		}
+	}
+}
+
+// errorValues: the fault enumeration once more with the error VALUE varied:
+// every value of errValues, as (0, err) and as (n > 0, err), at every offset of
+// small contents, for Create on the three stores, for HashReader and for
+// CheckReader (with and without declared length, several read sizes).
+func (g *gen) errorValues(maxLen int) {
+	rep := g.c.rep
+	g.emit("reset")
+	for L := 0; L <= maxLen; L++ {
+		content := g.content(L)
+		comp := make([]int, L)
+		for i := range comp {
+			comp[i] = 1
+		}
+		comps := [][]int{comp}
+		if L >= 2 {
+			comps = append(comps, []int{L})
+		}
+		sum := sha256.Sum256(content)
+		for _, cp := range comps {
+			_, bad := scriptsFor(chunksOf(content, cp))
+			for _, s0 := range bad {
+				for _, code := range errValueCodes {
+					s := append([]item{}, s0...)
+					s[len(s)-1].code = code
+					for _, store := range stores {
+						line := "create " + store + " " + showScript(s)
+						g.emit(line)
+						rep.Count("errvalue-create-" + store)
+						rep.Case(canon(line), true)
+					}
+					line := "hashrd " + showScript(s)
+					g.emit(line)
+					rep.Count("errvalue-hashreader")
+					rep.Case(canon(line), true)
+					for _, n := range []int64{-1, int64(L)} {
+						for _, bs := range []int{1, L + 1} {
+							line := fmt.Sprintf("ck want=%s len=%d bs=%d %s cls=errvalue", hx.Hex(sum[:]), n, bs, showScript(s))
+							g.emit(line)
+							rep.Count("errvalue-checkreader")
+							rep.Case(canon(line), true)
+						}
+					}
+				}
+			}
+		}
+		g.emit("list fs")
+	}
+	// complete inputs still hash: HashReader on every chunking of a small content
+	for _, cp := range compositions(4) {
+		good, _ := scriptsFor(chunksOf(g.content(4), cp))
+		for _, s := range good {
+			g.emit(withSha("hashrd "+showScript(s), s))
+			rep.Count("hashreader-complete")
 		}
 	}
 }
@@ -1536,6 +1657,7 @@ func main() {
 		if f.Thorough() {
 			timed("keys+store", g.keysAndStore)
 			timed("fault enumeration (len<=10)", func() { g.faultEnumeration(10) })
+			timed("error values (len<=6)", func() { g.errorValues(6) })
 			timed("big contents", func() { g.bigContents(400) })
 			timed("gated interleavings", func() { g.gated(45000, true) })
 			timed("concurrent rounds", func() { g.concurrent(650, 16); g.concurrent(80, 64) })
@@ -1543,6 +1665,7 @@ func main() {
 		} else {
 			timed("keys+store", g.keysAndStore)
 			timed("fault enumeration (len<=7)", func() { g.faultEnumeration(7) })
+			timed("error values (len<=3)", func() { g.errorValues(3) })
 			timed("big contents", func() { g.bigContents(114) })
 			timed("gated interleavings", func() { g.gated(2500, true) })
 			timed("concurrent rounds", func() { g.concurrent(60, 16); g.concurrent(4, 64) })
